@@ -116,7 +116,8 @@ class Gen:
 
     def char_lit(self):
         return self.ch(["'abc'", "\"xy z\"", "'it''s'", "'a!b'", "\"q&r\"", "'x;y'", "'(p)'", "'Mixed Case'",
-                        "\"say \"\"hi\"\"\"", "'.and.'", "'1.0e-3'", "'a // b'"])
+                        "\"say \"\"hi\"\"\"", "'.and.'", "'1.0e-3'", "'a // b'",
+                        "'Warning: value out of range! Please check the input file; then retry & go on.'"])
 
     def log_lit(self):
         return self.ch([".true.", ".false.", ".TRUE."])
